@@ -216,7 +216,22 @@ def rule_accept_above_commit(ctx, rule="R28c"):
            "validate_log_append can return Ok(true) for an entry at or below local.log_commit (a committed entry is "
            "replaced): %s" % (cfg.path_str(b, p) if p else "no accepting return / comparison found (idiom not recognised)"),
            b.where)
-    ctx.floor(rule, "accepting returns of validate_log_append", len(acc), 2)
+    # an entry the follower already stores (same term, index <= its last index) is never appended again: the storage
+    # truncates on append, so a duplicated / reordered Append of an old entry would drop acknowledged later entries.
+    # Every accepting return lies behind `local.log_term < log.term` or behind `local.log_index < log.index`
+    # (spelled `log_index >= log.index` == false, or `log_index + 1 == log.index`).
+    newer_term = R.edges_implying(cmps, "local.log_term", "log.term", "<")
+    beyond = R.edges_implying(cmps, "local.log_index", "log.index", "<")
+    beyond += [("%s == %s" % (c["a"], c["b"]), e) for c in cmps for rel, e in c["edges"]
+               if rel == "==" and {c["a"], c["b"]} == {"(1 + local.log_index)", "log.index"}]
+    p2 = cfg.find_path(b, [0], acc, removed_edges=[e for d, e in newer_term + beyond])
+    ok2 = bool(acc) and bool(newer_term or beyond) and p2 is None
+    ctx.ob(rule, "validate_log_append:no-re-append-of-stored-entry", ok2,
+           "accepting returns only behind %s" % sorted({d for d, e in newer_term + beyond}) if ok2 else
+           "validate_log_append can return Ok(true) for an entry of the follower's own last term that it already stores "
+           "(neither `local.log_term < log.term` nor `local.log_index < log.index` on the path %s): re-appending it "
+           "truncates the acknowledged entries behind it" % (cfg.path_str(b, p2) if p2 else "?"), b.where)
+    ctx.floor(rule, "accepting returns of validate_log_append", len(acc), 1)
 
 
 # --------------------------------------------------------------------------------------------------------- R28d
